@@ -239,7 +239,11 @@ def run_case(case):
             sizes = {"CHUNK_SIZE_ROWS_PREDICTION": max(2, (nmin - 1) // k)}
         kw["perturb"] = int(rng.integers(1 << 30))
         with core.chunk_sizes(**sizes):
-            out = pipeline.run_brew(paths, test_fdr=case["test_fdr"], **kw)
+            # a third of the runs follow an earlier analysis of other data at the same paths in this process (DESIGN 3.8)
+            out = pipeline.run_brew(paths, test_fdr=case["test_fdr"],
+                                    history=(case["seed"] + case["index"]) if case["index"] % 3 == 2 else None, **kw)
+        if out.get("history_prelude_completed"):
+            res.count("runs_after_history_prelude")
         res.count("task_kinds_finished_out_of_order", out.get("sched_out_of_order", 0))
         extra = {k: case[k] for k in ("folds", "test_fdr", "learner", "nfiles", "fmt", "workers")}
         extra["chunks"] = sizes
